@@ -462,6 +462,26 @@ pub fn fsm_batch_all(tier: Tier, depth: usize) -> Vec<Driver> {
     v
 }
 
+/// A closing connection whose last data segment is lost: the loss recovery that repairs the tail
+/// re-sends the FIN behind it once; after that the FIN is repeated on timeout only.
+pub fn fin_tail_recovery(tier: Tier, last_ack: bool, depth: usize) -> Driver {
+    let mut d = rtx(tier, 5, false, depth);
+    let def = WndSpec::Default;
+    d.name = format!("fin-tail-recovery-{}", if last_ack { "lastack" } else { "finwait1" });
+    d.cfg.peer_lens = vec![3];
+    d.prefix = if last_ack { vec![Act::Write(MSS), Act::Deliver(Pkt::Fin { off: 0, ack: AckSpec::Cur })] } else { vec![Act::Write(MSS), Act::Shutdown] };
+    d.alphabet = vec![
+        state(AckSpec::Cur, def, SackSpec::None),
+        state(AckSpec::Plus(1), def, SackSpec::None),
+        state(AckSpec::All, def, SackSpec::None),
+        Act::Deliver(Pkt::Data { off: 0, ack: AckSpec::Cur, wnd: def }),
+        Act::Spurious,
+        Act::Tick,
+        Act::Wait(50),
+    ];
+    d
+}
+
 /// Nagle coalescing.
 pub fn nagle(tier: Tier, on: bool, depth: usize) -> Driver {
     let mut cfg = SoloCfg::tiny(MSS);
@@ -785,6 +805,8 @@ pub fn all_drivers(tier: Tier) -> Vec<Driver> {
     v.push(tx_slowstart_mtu(tier, 6));
     v.extend(fsm_all(tier, 5));
     v.extend(fsm_batch_all(tier, 4));
+    v.push(fin_tail_recovery(tier, false, 6));
+    v.push(fin_tail_recovery(tier, true, 6));
     v.push(nagle(tier, true, 6));
     v.push(nagle(tier, false, 6));
     for (i, m) in [(8usize, 8usize), (8, 32), (32, 8)] {
